@@ -110,6 +110,9 @@ define_ops! {
     borsh_enc = |a: U| borsh::to_vec(&a).map_err(|_| ());
     borsh_bits_enc = |a: U| borsh::to_vec(&Bits::from(a)).map_err(|_| ());
     borsh_env_enc = |a: U, mode: N, k: N| { let mut w = Env::new(vec![], mode, k); borsh::BorshSerialize::serialize(&a, &mut w).map(|_| w.data).map_err(|_| ()) };
+    // context-specific tagging (how an INTEGER sits inside real ASN.1 structures): IMPLICIT hands the context-specific header
+    // straight to decode_value, EXPLICIT wraps a complete INTEGER; and OPTIONAL
+    der_ctx = |a: U| { use der::asn1::ContextSpecific; use der::{Decode, Encode, TagMode, TagNumber}; let imp = ContextSpecific { tag_number: TagNumber::N1, tag_mode: TagMode::Implicit, value: a }.to_der(); let exp = ContextSpecific { tag_number: TagNumber::N2, tag_mode: TagMode::Explicit, value: a }.to_der(); let back_i = imp.as_ref().ok().and_then(|b| { let mut r = der::SliceReader::new(b).ok()?; ContextSpecific::<Uint<B, L>>::decode_implicit(&mut r, TagNumber::N1).ok()?.map(|c| c.value) }); let back_e = exp.as_ref().ok().and_then(|b| { let mut r = der::SliceReader::new(b).ok()?; ContextSpecific::<Uint<B, L>>::decode_explicit(&mut r, TagNumber::N2).ok()?.map(|c| c.value) }); let o = Some(a).to_der().ok().and_then(|b| Option::<Uint<B, L>>::from_der(&b).ok().flatten()); (opt(imp), opt(exp), back_i, back_e, o) };
     der_enc = |a: U| (opt(der::Encode::to_der(&a)), opt(der::Encode::encoded_len(&a).map(|l| u32::from(l) as usize)), opt(der::EncodeValue::value_len(&a).map(|l| u32::from(l) as usize)));
     der_any_enc = |a: U| opt(der::Encode::to_der(&der::asn1::Any::from(&a)));
     der_int_enc = |a: U| opt(der::Encode::to_der(&der::asn1::Int::from(&a)));
@@ -734,6 +737,18 @@ fn model(bits: usize, op: Op, args: &[V]) -> Expect {
             c1.extend(&c);
             is(V::T(vec![by(f), by(f1), by(c), by(c1)])).nt(true)
         }
+        der_ctx => {
+            let c = rc::der_content(&a());
+            let mut imp = vec![0x81u8];
+            imp.extend(rc::der_len(c.len()));
+            imp.extend(&c);
+            let inner = rc::der(&a());
+            let mut exp = vec![0xa2u8];
+            exp.extend(rc::der_len(inner.len()));
+            exp.extend(&inner);
+            let v = u(&a(), bits);
+            is(V::T(vec![V::some(by(imp)), V::some(by(exp)), V::some(v.clone()), V::some(v.clone()), V::some(v)])).nt(true)
+        }
         der_any_enc | der_int_enc | der_uint_enc => is(V::some(by(rc::der(&a())))).nt(true),
         biguint_from => {
             let e = if a().is_zero() { vec![0u8] } else { a().to_bytes_le() };
@@ -1151,7 +1166,7 @@ fn c16(r: &Runner) {
                     exec(l, bits, Op::pg_array, &[a.clone(), bw.clone(), V::n(t)]);
                 }
             }
-            for op in [Op::alloy_slice_enc, Op::fastrlp04_slice_enc, Op::scale_outputs_enc] {
+            for op in [Op::alloy_slice_enc, Op::fastrlp04_slice_enc, Op::scale_outputs_enc, Op::der_ctx] {
                 exec(l, bits, op, &[a.clone()]);
             }
             {
